@@ -605,9 +605,38 @@ def c03e(ck, prog):
         ok_len = ok_len or always(e204, cl_none, no_header)
         ok_stream = ok_stream or always(estream, cl_none, no_header)
         ok_body = ok_body or always(e204, body_none, no_body)
-    ck.ob(R, "204:drops-length", ok_len, f.loc(None), "" if ok_len else "complete() does not remove Content-Length for status 204", how="NoContent => ContentLength(None)")
+    # ... on every path: the sites above exist, but an arm matched earlier (`(Content::Payload(_), _) => ..` in front of
+    # `(_, Status::NoContent)`) can answer for a 204 before the status is looked at. From the entry, no path reaches the exit
+    # without the removal unless it takes an edge establishing `status is not NoContent` (resp. `content is not a stream`)
+    # or an edge that finds nothing to remove.
+    from .lib import pathsens as _ps
+    gu = prog.inlined(f, 1, lambda caller, callee: callee.crate == caller.crate and (callee.self_ty or "").endswith("response::content::Content"))
+    u_exits = list(gu.exits())
+    u_cl = tuple(sorted({c.bb for c in gu.calls_to(r"SetHeaders::<'set>::ContentLength$") if "None" in decision.describe_deep(gu, c.args[1], 3)}))
+    u_body = tuple(sorted({bi for bi, st, agg in decision.field_stores(gu, "content") if agg is not None and agg[1].get("variant") == "None"}))
+
+    def _where(fa):
+        return decision.describe_deep(gu, fa.place, 4) if getattr(fa, "place", None) else guards.describe_origin(gu, fa.steps)
+    u_not204 = lambda facts: any(fa.kind == "variant" and fa.allowed is not None and "NoContent" not in fa.allowed and "status" in _where(fa) for fa in facts)
+    u_notstream = lambda facts: any(fa.kind == "variant" and fa.allowed is not None and "Stream" not in fa.allowed and "content" in _where(fa) for fa in facts)
+    u_nohdr = lambda facts: any((fa.kind == "boolcall" and ((fa.truth and fa.call.name == "is_none") or (not fa.truth and fa.call.name == "is_some")) and "ContentLength(" in decision.describe_deep(gu, fa.call.args[0], 3))
+                                or (fa.kind == "variant" and fa.allowed == {"None"} and "ContentLength" in guards.describe_origin(gu, fa.steps)) for fa in facts)
+    u_nobody = lambda facts: any(fa.kind == "variant" and fa.allowed == {"None"} and "content" in _where(fa) for fa in facts)
+
+    def _escape(through, *unless):
+        if not through:
+            return [0]
+        for ex in u_exits:
+            pth = _ps.path_avoiding_edges(gu, prog, 0, ex, lambda facts: any(u(facts) for u in unless), constprop=True, avoid=through)
+            if pth is not None:
+                return pth
+        return None
+    has_stream = any(v.get("name") == "Stream" for k, a in prog.adts.items() if k.endswith("response::content::Content") for v in a.get("variants", []))
+    e1, e2, e3 = _escape(u_cl, u_not204, u_nohdr), _escape(u_body, u_not204, u_nobody), (_escape(u_cl, u_notstream, u_nohdr) if has_stream else None)
+    ok_len, ok_body, ok_stream = ok_len and e1 is None, ok_body and e2 is None, ok_stream and e3 is None
+    ck.ob(R, "204:drops-length", ok_len, f.loc(None), "" if ok_len else "complete() does not remove Content-Length for status 204" + (" on every path: blocks %s reach the exit with a status that may be 204 and the header kept (an arm matched before the status is looked at?)" % e1[:12] if e1 else ""), how="NoContent => ContentLength(None)")
     ck.ob(R, "stream:drops-length", ok_stream, f.loc(None), "" if ok_stream else "complete() does not remove Content-Length for a streaming body", how="Stream => ContentLength(None)")
-    ck.ob(R, "204:drops-body", ok_body, f.loc(None), "" if ok_body else "complete() does not drop the body for status 204", how="NoContent => content = None")
+    ck.ob(R, "204:drops-body", ok_body, f.loc(None), "" if ok_body else "complete() does not drop the body for status 204" + (" on every path: blocks %s reach the exit with a status that may be 204 and the content kept" % e2[:12] if e2 else ""), how="NoContent => content = None")
     # Router::handle calls complete on every path to its return
     h = prog.coroutine_body(prog.one(r"^ohkami::router::r#final::Router::handle$|^ohkami::router::final::Router::handle$|router::.*final.*::Router::handle$").key)
     cs = h.calls_to(r"^ohkami::response::Response::complete$")
